@@ -83,4 +83,10 @@ CHECKS = {
         "level_note": "The full-field load of the same tree is the reference (differential); its own correctness is C05's business.",
         "technique": "differential monitor (subset load vs full load), exhaustive over the 2^10 subsets per word",
     },
+    "C10": {
+        "level_text": "Exploration, history + executable model: random operation histories run on one long-lived tokenizer/list pair; after every operation a probe text is analysed by it and by a fresh tokenizer with the same mode and field request, and the two results are compared on boundaries, word ids and requested fields. Held on the counted histories.",
+        "design_ref": "DESIGN.md 6/C10",
+        "level_note": "The model is the same code in a fresh state; a defect that is independent of history is invisible here (other properties cover those).",
+        "technique": "history monitor with a fresh-instance reference model (differential)",
+    },
 }
